@@ -82,6 +82,8 @@ def gen_specs(ctx):
     out.append((S([E("Base", [F("b", "string"), F("ro", get=True)], shoot=True), F("x"), F("Pub")]), True))
     out.append((S([F("Name", "string"), F("Age")]), False))
     out.append((S([F("name", "string"), F("Age")]), False))
+    # witness of the known finding F_jsonSkipExported: an exported field left out of generation
+    out.append((S([F("Name", "string"), F("Secret", "string", tagskip=True), F("age")]), True))
     n = ctx.n(200, 2000)
     for _ in range(n):
         getset = ctx.rng.random() < 0.75
@@ -197,6 +199,8 @@ def run(ctx, obl):
         res.hist("getset", str(c["getset"]))
 
     def sig(c, region, dk, im, m):
+        if region.startswith("F_"):
+            return region
         kinds = ",".join(sorted(set(k.split(":")[0] for k in dk)))
         return "%s:%s" % (region, kinds)
 
